@@ -651,7 +651,7 @@ def run(ctx):
       lm.unmapped = []
     ctx.extra['preempt_sweep'] = dict(gate_acts=len(gates), tried=len(sweep), preemption_fired=fired)
   nsched = ctx.scale(110, 4000) if not (early_sweep and ctx.hits) else ctx.scale(30, 300)
-  budget = ctx.scale(70.0, 1000.0)
+  budget = ctx.scale(55.0, 1000.0)
   t_start = time.time()
   cases, impl_outs, descrs = [], [], []
   est = 400
